@@ -6,6 +6,7 @@ From ReqV Require Import Lib.Bytes Lib.BigEndian Model.BodyFraming Model.StreamB
 From ReqV Require Model.H2Frame Proofs.StreamWireH2Proofs.
 From ReqV Require Import Model.Interim Proofs.InterimProofs.
 From ReqV Require Import Model.TlsConn Proofs.TlsConnProofs.
+From ReqV Require Import Model.RespRead Model.DupLength Proofs.RespReadProofs.
 Local Open Scope nat_scope.
 
 (* HTTP/1.1, Content-Length and chunked framing (every body, every chunk partition with any
@@ -65,6 +66,44 @@ Theorem C03_gzip_truncation_detected : forall (gunzip : bytes -> option bytes) h
             gz_result gunzip r = None.
 Proof. exact gzip_truncation_detected_thm. Qed.
 Print Assumptions C03_gzip_truncation_detected.
+
+(* ===================== reading the body through the Response more than once =====================
+   State carried by the Response between calls (r.Err, r.body): any number of
+   ToBytes/ToString calls on a fresh Response all report what the first one found - in
+   particular a body read that failed is never, later, the fragment with a nil error. *)
+Theorem C03_reads_sticky : forall under n,
+  reads to_bytes under n rs_init = repeat (first_result under) n.
+Proof. exact reads_sticky_thm. Qed.
+Print Assumptions C03_reads_sticky.
+
+Theorem C03_failed_read_stays_failed : forall d n r,
+  In r (reads to_bytes (d, false) n rs_init) -> r = None.
+Proof. exact failed_read_stays_failed_thm. Qed.
+Print Assumptions C03_failed_read_stays_failed.
+
+Example C03_cache_first_refuted :
+  reads to_bytes_cache_first (bs "hello", false) 3 rs_init = [None; Some (bs "hello"); Some (bs "hello")] /\
+  reads to_bytes (bs "hello", false) 3 rs_init = [None; None; None].
+Proof. exact cache_first_refuted. Qed.
+
+(* ===================== several Content-Length lines in one response head =====================
+   A line whose value differs from the first one - anywhere, the last line included - makes
+   the call fail; agreeing lines are the one Content-Length framing (so the theorems above
+   apply to it). *)
+Theorem C03_cl_lines_contradiction_refused : forall hlen v rest x wire,
+  In x rest -> x <> v -> h1_read_cl_lines hlen (v :: rest) wire = CallError.
+Proof. exact cl_lines_contradiction_refused_thm. Qed.
+Print Assumptions C03_cl_lines_contradiction_refused.
+
+Theorem C03_cl_lines_agreeing : forall hlen v rest wire,
+  Forall (eq v) rest -> h1_read_cl_lines hlen (v :: rest) wire = h1_read hlen (FrCL v) wire.
+Proof. exact cl_lines_agreeing_thm. Qed.
+Print Assumptions C03_cl_lines_agreeing.
+
+Example C03_skip_last_refuted :
+  cl_lines_agree_skip_last [5%N; 11%N] = true /\ cl_lines_agree [5%N; 11%N] = false /\
+  cl_lines_agree_skip_last [5%N; 11%N; 5%N] = false.
+Proof. exact skip_last_refuted. Qed.
 
 (* ===================== HTTP/1.1 over TLS: the TCP stream cut at a point of the record layer =====================
    recs: ANY way of cutting the response (header block + framed body) into TLS records;
